@@ -615,6 +615,7 @@ class Runner:
         self.max_rounds = max_rounds
         self.max_expiries = max_expiries
         self.actions = actions or {}
+        self.refused_puts = 0
         self.s2d: list[bytes] = []
         self.d2s: list[bytes] = []
         self.held: list[list] = []  # [disposition, direction, raw]
@@ -755,6 +756,18 @@ class Runner:
             self.w.log.add("action", ep.side, what="cancel", res=res, wrong=bool(act[2:] and act[2] == "wrong"))
         elif kind == "tick":
             self.advance_clock()
+        elif kind == "put_third":
+            # the user issues a valid put request towards the third entity while the sender is busy: refused, nothing else happens
+            if self.w.S.h.state == CfdpState.BUSY:
+                try:
+                    res = self.w.put_to_third()
+                except PROTO_EXC as e:
+                    self.proto_exc.append(("S", type(e).__name__, "put_third"))
+                    res = type(e).__name__
+                except Exception as e:  # noqa: BLE001
+                    raise InternalError("S", e) from e
+                self.w.log.add("action", "S", what="put_third", res=res)
+                self.refused_puts += 1
         else:
             raise ValueError(act)
 
